@@ -903,7 +903,7 @@ func exec(x *fw.Ctx, c Case) {
 		if c.Kind == "tmpl" {
 			x.Cover("tmpl-skipped")
 		}
-		if exp.err.Class != "limit" && exp.err.Class != "type-error" && exp.err.Class != "unspecified" {
+		if exp.err.Class != "limit" && exp.err.Class != "type-error" && exp.err.Class != "unspecified" && exp.err.Class != "outside" {
 			// a generator defect, not a slip defect: make it visible
 			x.Cover("skipped-detail:" + exp.err.Msg)
 		}
@@ -1039,10 +1039,11 @@ type brokenInfo struct {
 // finding is marked fixed the construct is ordinary language again and its
 // label cannot take the blame for anything.
 var knownBroken = map[string]brokenInfo{
-	"mv-into:let-init":        {prio: 7, probe: "(let ((x (values 1 2))) (multiple-value-list x))"},
-	"mv-into:let*-init":       {prio: 7, probe: "(let* ((x (values 1 2))) (multiple-value-list x))"},
-	"quote-shorthand-in-data": {prio: 20, probe: "(quote (a 'b))"},
-	"quote-shorthand:quote":   {prio: 11, probe: "(list ''a)"},
+	"mv-into:let-init":                  {prio: 7, probe: "(let ((x (values 1 2))) (multiple-value-list x))"},
+	"mv-into:let*-init":                 {prio: 7, probe: "(let* ((x (values 1 2))) (multiple-value-list x))"},
+	"sequential-binding-later-variable": {prio: 9, probe: "(let ((k 0)) (let* ((f (lambda () (vtr 1 k))) (k 5)) (list (funcall f) k)))"},
+	"quote-shorthand-in-data":           {prio: 20, probe: "(quote (a 'b))"},
+	"quote-shorthand:quote":             {prio: 11, probe: "(list ''a)"},
 }
 
 var (
@@ -1136,7 +1137,7 @@ func counts(tier string) (nProbe, nTmpl, nQuote, nProg int) {
 	setup()
 	nProbe = len(probes) + len(detCases)
 	if tier == "thorough" {
-		return nProbe, len(tmplTable) * 4, 20000, 400000
+		return nProbe, len(tmplTable) * 4, 40000, 1000000
 	}
 	return nProbe, len(tmplTable), 4000, 60000
 }
@@ -1207,16 +1208,21 @@ func init() {
 	fw.Register(fw.Spec[Case]{
 		ID: "C01",
 		Rule: "typed program generator over the core forms (builtin/user calls, progn, prog1, if/when/unless/cond/case, and/or, let/let*, " +
-			"setq, lambda, lambda-call, closures (counter, maker, shared binding, made in a loop, defun in a binding), defun + recursion, " +
-			"dolist/dotimes/do/do*, mapcar/apply/funcall, values/multiple-value-bind/-list, quote), depth <= 6, ~20-70 generated nodes, " +
-			"variable names reused across nested bindings (let/let*/do/do* deliberately rebind an outer uncaptured name and read it in a later init form), trace calls (vtr k form)/(vtr k) at evaluated positions; the reference evaluator's " +
-			"values and trace must equal the interpreter's (interpreted and Code.Compile'd modes). Blocks: deterministic probes of the listed " +
-			"findings; two-level templates (every form kind forced as direct child of every position of every form kind); quote programs over " +
-			"every datum kind in 10 evaluation contexts; seeded random programs. Clean stream avoids the listed constructs (counters avoided:*: " +
-			"multiple values reaching single-value consumers other than function arguments/prog1/case keys, progn passing multiple values, " +
-			"(values) with no values, do/do* with an atom end test (run under a step budget; never run when nothing in the loop is a list form), " +
-			"free variables captured under a name that is rebound elsewhere (captured variables get unique names), bare free variable as " +
-			"lambda-call body form, 'x before anything but a symbol or list); 1 in 8 random cases is a dirty case that builds one listed construct. " +
+			"setq, lambda, lambda in operator position, closures (counter, maker, shared binding, made in a loop, called where the captured name is " +
+			"rebound, defun inside a binding incl. redefinition of an existing function and forward references), defun + recursion, " +
+			"dolist/dotimes/do/do* (variables without step, atom end tests), closures over loop variables, mapcar/apply/funcall incl. zero " +
+			"arguments and functions held in lists, lambda lists with &optional/&rest/&key whose init forms see earlier parameters, " +
+			"values/multiple-value-bind/-list with multiple values flowing through every position, quote and 'x before every datum kind), " +
+			"depth <= 6, ~20-70 generated nodes; variable names come from a pool of six so bindings, parameters, closure-creating scopes and " +
+			"calling scopes shadow one another; trace calls (vtr k form)/(vtr k) at evaluated positions. The reference evaluator's values and " +
+			"trace must equal the interpreter's (interpreted and Code.Compile'd modes). Only what the language specifies is judged: a " +
+			"dolist/dotimes variable used after its iteration is accepted under either permitted binding rule, a function redefined while " +
+			"the arguments of a call to it are evaluated is skipped. Blocks: probes of the OPEN findings; a deterministic block (defun in a " +
+			"binding, redefinition, forward reference, loop-variable closures, functions as data, lambda lists, multiple values, quote); two-level " +
+			"templates (every form kind forced as direct child of every position of every form kind); quote programs over every datum kind in " +
+			"10 contexts; seeded random programs. Constructs named by an OPEN entry of findings/C01.json (counters avoided:*) are kept out of " +
+			"the clean stream and built on purpose by 1 in 12 random cases; a divergence is attributed to such a construct only while its " +
+			"finding is open, otherwise the signature is the divergence kind plus the form kinds of the minimised program. " +
 			"distinct = distinct program text + mode; non-trivial = reference run error-free with >= 3 trace events and >= 2 form kinds",
 		N:        nCases,
 		Gen:      genCase,
@@ -1227,7 +1233,7 @@ func init() {
 		Assumptions: []string{
 			"the reference evaluator (internal/c01/ref, ANSI CL semantics of the subset, no slip code) is the trusted oracle",
 			"integers stay below 2^40 (C05 owns overflow); programs the reference evaluator cannot finish in 20000 steps are skipped",
-			"non-local exits, macros, special-variable rebinding, lambda-list keywords are outside (C07, C04, C08)",
+			"non-local exits, macros, special-variable rebinding are outside (C07, C08); lambda lists stay within what C04 repaired: no unknown or repeated keywords, init forms never mention a parameter to their right",
 		},
 	})
 }
